@@ -57,7 +57,7 @@ def _ast(v):
     return _a.literal_eval(a) if a else None
 
 
-def _first_repeat_wild(seq, in_repeat=False, pol=1, out=None):
+def _first_repeat_wild(seq, in_repeat=False, pol=1, out=None, dots=False):
     """Polarities (+1 plain, -1 under a negated group) with which the first position of the sequence reaches a
     wildcard that sits inside a repeated (* or +) group."""
     if out is None:
@@ -65,14 +65,14 @@ def _first_repeat_wild(seq, in_repeat=False, pol=1, out=None):
     if not seq:
         return out
     nd = seq[0]
-    if nd[0] in ('star', 'q', 'br'):
+    if nd[0] in ('star', 'q', 'br') or (dots and nd[0] == 'lit' and nd[1] == '.'):
         if in_repeat:
             out.add(pol)
     elif nd[0] == 'ext':
         rep = in_repeat or nd[1] in '*+'
         p2 = -pol if nd[1] == '!' else pol
         for a in nd[2]:
-            _first_repeat_wild(a, rep, p2, out)
+            _first_repeat_wild(a, rep, p2, out, dots)
     return out
 
 
@@ -81,7 +81,7 @@ def _repdot(v, params):
     """REPDOT: the segment-start guards of a wildcard that opens a repeated group are re-applied on every iteration:
     without DOTMATCH names/segments with an *interior* dot are rejected; in path mode with DOTGLOB the `.`/`..` guard
     rejects segments that merely end in '.' (accepted instead of rejected under a negated group)."""
-    if v['kind'] != 'lang':
+    if v['kind'] not in ('lang', 'refused'):
         return False
     inp = v['input']
     fl = inp['flags']
@@ -91,9 +91,10 @@ def _repdot(v, params):
     seq = _ast(v)
     if seq is None or not name:
         return False
-    path = any(nd[0] == 'sep' for nd in seq) or inp.get('mode') == 'path' or v.get('path')
+    zmode = v['kind'] == 'refused' and 'Z' in fl and inp.get('mode') == 'glob'
+    path = any(nd[0] == 'sep' for nd in seq) or inp.get('mode') in ('path', 'glob') or v.get('path')
     segs_n = [x for x in name.replace('\\', '/').split('/') if x] if (path or '/' in name) else [name]
-    if 'D' in fl:
+    if 'D' in fl or zmode:
         import re as _re
         if not any(_re.search(r'(?s).\.{1,2}\n?$', x) for x in segs_n):
             return False
@@ -104,7 +105,7 @@ def _repdot(v, params):
     cur = []
     for nd in list(seq) + [('sep', 1, False)]:
         if nd[0] == 'sep':
-            pols |= _first_repeat_wild(tuple(cur))
+            pols |= _first_repeat_wild(tuple(cur), dots=zmode)
             cur = []
         else:
             cur.append(nd)
@@ -170,3 +171,139 @@ def _nldir(v, params):
     if obs is False and exp is True:
         return True
     return '!(' in v['input']['pattern'] and obs is True and exp is False
+
+
+def _nullable(seq):
+    for nd in seq:
+        if nd[0] == 'star':
+            continue
+        if nd[0] == 'ext':
+            if nd[1] in '?*!':
+                continue
+            if any(_nullable(a) for a in nd[2]):
+                continue
+        return False
+    return True
+
+
+def _nullstart(seq, path, passed=False, groups_only=False, zmode=False):
+    """Is there, at the start of this segment, a wildcard that can consume the first character although it stands
+    behind constructs that matched the empty string (so it carries no dot guard)?
+
+    groups_only: only a nullable *group* counts as such a prefix (a leading star keeps its unconditional guard)."""
+    for nd in seq:
+        k = nd[0]
+        if k in ('q', 'br'):
+            return passed
+        if k == 'star':
+            if passed:
+                return True
+            if path and not groups_only:
+                passed = True       # the guarded path star is optional: (?:(?!\.)[^/]*?)?
+                continue
+            return False
+        if k == 'ext':
+            if nd[1] == '!':
+                if passed:
+                    return True
+                if path and not groups_only:
+                    passed = True
+                    continue
+                return False
+            for a in nd[2]:
+                if _nullstart(a, path, passed, groups_only, zmode):
+                    return True
+            if nd[1] in '?*' or any(_nullable(a) for a in nd[2]):
+                passed = True
+                continue
+            return False
+        if zmode and passed and k == 'lit' and nd[1] == '.':
+            # NODOTDIR: a written dot behind a nullable group is not analysed by _handle_dot (after_start was reset)
+            return True
+        return False
+    return False
+
+
+def _segments(seq):
+    cur = []
+    out = []
+    for nd in seq:
+        if nd[0] == 'sep':
+            out.append(tuple(cur))
+            cur = []
+        else:
+            cur.append(nd)
+    out.append(tuple(cur))
+    return [s for s in out if s]
+
+
+@classifier('nullstart')
+def _nullstart_cls(v, params):
+    """NULLSTART: a wildcard preceded in its segment only by constructs that matched the empty string carries no dot
+    guard and consumes a leading dot (`?(x)*`, `*(a)?`; in path mode also `*?a`, `*[!b]a`, `!(a)?` because the guarded
+    path star is optional)."""
+    if v['kind'] != 'leak':
+        return False
+    inp = v['input']
+    if v['observed'].get('match') is not True:
+        return False
+    seq = _ast(v)
+    if seq is None:
+        return False
+    path = inp.get('mode') == 'glob'
+    groups_only = 'D' in inp['flags']
+    zmode = 'Z' in inp['flags']
+    return any(_nullstart(sg, path, False, groups_only and not zmode, zmode) for sg in _segments(seq))
+
+
+def _neg_has_dot_alt(seq):
+    for nd in seq:
+        if nd[0] == 'ext':
+            if nd[1] == '!' and any(a and a[0][0] == 'lit' and a[0][1] == '.' for a in nd[2]):
+                return True
+            if any(_neg_has_dot_alt(a) for a in nd[2]):
+                return True
+    return False
+
+
+@classifier('negdotdir')
+def _negdotdir(v, params):
+    """NEGDOTDIR: under DOTGLOB a !(...) whose list contains an alternative beginning with a written dot is compiled
+    with the unguarded star (match_dot_dir) and matches the segments . and .. (intended upstream: tests/test_globmatch.py
+    expects `!(.)` to match `..` with DOTGLOB)."""
+    if v['kind'] != 'leak':
+        return False
+    inp = v['input']
+    if inp.get('mode') != 'glob' or 'D' not in inp['flags'] or 'Z' in inp['flags']:
+        return False
+    name = _name(v)
+    if not any(x in ('.', '..') for x in name.split('/')):
+        return False
+    seq = _ast(v)
+    return seq is not None and _neg_has_dot_alt(seq)
+
+
+def _group_alt_ends_dot(seq):
+    for i, nd in enumerate(seq):
+        if nd[0] == 'ext':
+            if any(a and a[-1][0] == 'lit' and a[-1][1] == '.' for a in nd[2]) and i + 1 < len(seq):
+                return True
+            if any(_group_alt_ends_dot(a) for a in nd[2]):
+                return True
+    return False
+
+
+@classifier('zgroup')
+def _zgroup(v, params):
+    """ZGROUP: under NODOTDIR the look-ahead of _handle_dot that decides whether a written dot starts a literal `.`/`..`
+    segment stops at the end of a group alternative, so `+(.)?` or `@(.).` still match `..`."""
+    if v['kind'] != 'leak':
+        return False
+    inp = v['input']
+    if inp.get('mode') != 'glob' or 'Z' not in inp['flags']:
+        return False
+    name = _name(v)
+    if not any(x in ('.', '..') for x in name.split('/')):
+        return False
+    seq = _ast(v)
+    return seq is not None and any(_group_alt_ends_dot(sg) for sg in _segments(seq))
